@@ -603,6 +603,11 @@ func checkIndexSite(c *Ctx, f *ssa.Function, in ssa.Instruction, x, idx ssa.Valu
 				c.Pass("R14.2", key, in.Pos(), fmt.Sprintf("the index is in [%d, %d] and the operand has %d elements", lo, hi, n))
 				return
 			}
+			// the counter of a range loop (phi [-1, phi+1] + 1, or phi [0, phi+1]) never goes below zero
+			if hasHi && hi < n && countsUpFromZero(idx) {
+				c.Pass("R14.2", key, in.Pos(), fmt.Sprintf("the index counts up from 0 and stays below %d; the operand has %d elements", hi+1, n))
+				return
+			}
 			miss := "an upper bound below the length"
 			if hasHi && hi < n {
 				miss = "a lower bound (the index is signed and can be negative)"
@@ -1454,6 +1459,31 @@ func checkCursorInvariant(c *Ctx, covered map[token.Pos]bool) {
 	}
 	fname := st.Field(sliceField).Name()
 	sp := c.SSAPk[pp.PkgPath]
+	// a cursor that keeps the whole text and an index into it (runes[idx]) stands on another invariant (idx < len) than the one
+	// this rule proves (the remaining text is never empty: runes[0] and runes[1:])
+	for i := 0; i < cursor.NumMethods(); i++ {
+		f := c.Prog.FuncValue(cursor.Method(i))
+		if f == nil {
+			continue
+		}
+		for _, b := range f.Blocks {
+			for _, in := range b.Instrs {
+				ia, ok := in.(*ssa.IndexAddr)
+				if !ok {
+					continue
+				}
+				if _, isConst := ia.Index.(*ssa.Const); isConst {
+					continue
+				}
+				if ld, ok := ia.X.(*ssa.UnOp); ok {
+					if fa, ok := ld.X.(*ssa.FieldAddr); ok && fa.Field == sliceField {
+						c.Undecided("R14.2", "cursor invariant len("+fname+") >= 1", token.NoPos, "the cursor over the pattern indexes its text with a stored position: its invariant is not the one this rule establishes")
+						return
+					}
+				}
+			}
+		}
+	}
 	if sp == nil {
 		c.Lost("R14.2", "SSA of internal/regex/parser")
 		return
@@ -2808,4 +2838,34 @@ func sameSliceValue(a, b ssa.Value) bool {
 	la, ok1 := a.(*ssa.UnOp)
 	lb, ok2 := b.(*ssa.UnOp)
 	return ok1 && ok2 && la.Op == token.MUL && lb.Op == token.MUL && la.X == lb.X
+}
+
+
+// countsUpFromZero: idx is phi+1 with phi = [-1, idx] (the index of a range loop), or a phi [0, phi+1] itself.
+func countsUpFromZero(idx ssa.Value) bool {
+	if bo, ok := idx.(*ssa.BinOp); ok && bo.Op == token.ADD && isConstInt(bo.Y, 1) {
+		if phi, ok := bo.X.(*ssa.Phi); ok {
+			okAll := len(phi.Edges) > 0
+			for _, e := range phi.Edges {
+				if !(isConstInt(e, -1) || e == idx) {
+					okAll = false
+				}
+			}
+			return okAll
+		}
+	}
+	if phi, ok := idx.(*ssa.Phi); ok {
+		okAll := len(phi.Edges) > 0
+		for _, e := range phi.Edges {
+			if isConstInt(e, 0) {
+				continue
+			}
+			if bo, ok := e.(*ssa.BinOp); ok && bo.Op == token.ADD && bo.X == ssa.Value(phi) && isConstInt(bo.Y, 1) {
+				continue
+			}
+			okAll = false
+		}
+		return okAll
+	}
+	return false
 }
